@@ -6,7 +6,7 @@ from fractions import Fraction
 import z3
 
 from . import core
-from .core import R, I, B, MATH, is_sym, HarnessError
+from .core import R, I, B, S, MATH, is_sym, HarnessError
 
 
 class IntAttr:
@@ -179,7 +179,50 @@ def sx_abs(v):
     return builtins.abs(v)
 
 
-BUILTIN_OVERRIDES = {'max': sx_max, 'min': sx_min, 'float': sx_float, 'int': sx_int, 'round': sx_round, 'sum': sx_sum}
+class _SxStrMeta(type):
+    def __instancecheck__(cls, obj):
+        return isinstance(obj, (builtins.str, S))
+
+
+class sx_str(metaclass=_SxStrMeta):
+    """str() that lets symbolic strings through"""
+    def __new__(cls, v='', *a):
+        if isinstance(v, S):
+            return v
+        return builtins.str(v, *a)
+
+    join = staticmethod(builtins.str.join)
+    format = staticmethod(builtins.str.format)
+    lower = staticmethod(builtins.str.lower)
+    upper = staticmethod(builtins.str.upper)
+    maketrans = staticmethod(builtins.str.maketrans)
+
+
+class HashTerm:
+    """hash of a tuple with symbolic members, kept structural"""
+    def __init__(self, fields):
+        self.fields = fields
+
+
+def sx_hash(obj):
+    def symbolic(o):
+        if is_sym(o) or isinstance(o, HashTerm):
+            return True
+        if isinstance(o, tuple):
+            return any(symbolic(x) for x in o)
+        if getattr(type(o), '_sx_cdef_class_', False):
+            return any(symbolic(x) for x in vars(o).values())
+        return False
+    if symbolic(obj):
+        if isinstance(obj, tuple):
+            return HashTerm(tuple(sx_hash(o) if not is_sym(o) else o for o in obj))
+        if is_sym(obj) or isinstance(obj, HashTerm):
+            return obj
+        return type(obj).__hash__(obj)
+    return builtins.hash(obj)
+
+
+BUILTIN_OVERRIDES = {'str': sx_str, 'hash': sx_hash, 'max': sx_max, 'min': sx_min, 'float': sx_float, 'int': sx_int, 'round': sx_round, 'sum': sx_sum}
 
 
 # ------------------------------------------------------------------ libc
